@@ -125,6 +125,8 @@ class Check:
             seen.add(o.key())
             n += 1
             rp = os.path.join(VERIF, "replay", f"{self.pid}-{o.rule}-{n}.json")
+            if os.environ.get("VERIF_NO_EVIDENCE"):
+                rp = os.devnull
             with open(rp, "w") as f:
                 json.dump({"property": self.pid, "rule": o.rule, "rule_text": self.rules.get(o.rule, ""),
                            "module": o.module, "function": o.function, "line": o.line, "obligation": o.what,
@@ -148,6 +150,8 @@ class Check:
         return 1 if violations else 0
 
     def write_evidence(self, nviol, known_hits):
+        if os.environ.get("VERIF_NO_EVIDENCE"):
+            return
         total = len(self.obs)
         good = sum(1 for o in self.obs if o.ok)
         distinct = len({o.key() for o in self.obs if o.nontrivial})
